@@ -508,7 +508,32 @@ def _either(model_names, impl, a, margs, margs_list=None):
         ir, rs[0], rs[-1])
 
 
+def _oc(thunk):
+    try:
+        return ("ok", thunk())
+    except Exception as e:  # noqa
+        return ("err", type(e).__name__)
+
+
+def direct_shared_decoder(a):
+    """One auto-detecting Monero decoder/validator object reused for phrases in different languages must
+    give what a fresh object gives for each (results depend on arguments only)."""
+    seq = a[0]          # list of [language index, with-checksum flag, entropy]
+    dec, val = MoneroMnemonicDecoder(), MoneroMnemonicValidator()
+    for li, ck, ent in seq:
+        enc = MoneroMnemonicEncoder(XL[li])
+        phrase = (enc.EncodeWithChecksum(ent) if ck else enc.EncodeNoChecksum(ent)).ToStr()
+        fresh, shared = _oc(lambda: MoneroMnemonicDecoder().Decode(phrase)), _oc(lambda: dec.Decode(phrase))
+        if fresh != shared:
+            return "reused auto-detect Monero decoder: %s phrase -> %s, a fresh decoder -> %s" % (
+                XL[li].name, str(shared)[:60], str(fresh)[:60])
+        if val.IsValid(phrase) != MoneroMnemonicValidator().IsValid(phrase):
+            return "reused auto-detect Monero validator disagrees with a fresh one (%s)" % XL[li].name
+    return None
+
+
 FUNCS = {
+    "shared_decoder": Func(direct=direct_shared_decoder),
     "wordlist_digest": Func(direct=direct_wordlist_digest),
     "golden_encode": Func(model=model_golden, impl=impl_golden, direct=direct_golden),
     "mnem_crc32": Func(model=lambda m, a: m.call("mnem_crc32", a[0]), impl=lambda a: Crc32.QuickIntDigest(a[0])),
@@ -1129,6 +1154,15 @@ def _check_list_normalisation(ctx):
 
 
 def generate(ctx):
+    # histories on one reused auto-detecting decoder: every ordered pair of Monero languages + random walks
+    for i in range(len(XL)):
+        for j in range(len(XL)):
+            if i != j:
+                ctx.run("shared_decoder", [[[i, 1, bytes(range(i + 3, i + 35))], [j, 1, bytes(range(j + 60, j + 92))]]], "pair")
+    for _ in range(ctx.n(10, 200)):
+        ctx.run("shared_decoder", [[[ctx.rng.randrange(len(XL)), ctx.rng.randrange(2),
+                                     bytes(ctx.rng.randrange(256) for _ in range(ctx.rng.choice([16, 32])))]
+                                    for _ in range(ctx.rng.randrange(2, 6))]], "walk")
     _M[0] = ctx.m
     _check_list_normalisation(ctx)
     _gen_text(ctx)
